@@ -1,6 +1,7 @@
 import Lemmas.EvalFull
 import Lemmas.EvalBound
 import Lemmas.EvalVars
+import Lemmas.EvalFixedTree
 import Generated.Facts
 /-! # C09 — expression evaluation follows operator precedence and never crashes
 
@@ -445,5 +446,113 @@ example : ∃ (e : X) (f : Bytes → Bytes), e.WF stdOps (Facts.fixedFunctions.m
     refine ⟨by decide, by decide, Or.inr ⟨symBytes "x", by decide, by decide, by decide, a2, by decide, by decide⟩,
       Or.inl (by decide), trivial⟩
   · decide
+
+/-! ## values of the fixed-point evaluator (`Model/EvalFixed.lean`: `eval/fixed_operators.go` and the integer part of
+    `eval/fixed_function.go` over the arithmetic of `Model/Fixed.lean` (C03) and the text forms of
+    `Model/FixedText.lean` (C04)); the driver computes these values and the `fxval` stream compares them with
+    `NewFixedEvaluator[Dk](…).Evaluate` directly.  Outside the model (`VR.outside`, taken from the implementation):
+    literals with an exponent, `^`, sqrt, cbrt, exp, exp2, log, log10, log1p. -/
+section FixedValues
+open EvalFixed
+
+/-- in every configuration `fixed.D1 … D16` of the regenerated table the value 1 is not 0 (`Inc` of 0, which `if`
+    uses for a non-numeric true condition) -/
+theorem fixed_cfg_one_ne_zero (k : Nat) (z : Bool) (c : Cfg) (h : cfg? k z = some c) : Fixed.F64.inc c.mult 0 ≠ 0 := by
+  have hall : (List.range 17).all (fun k => match Fixed.mult? k with
+      | some m => decide (Fixed.F64.inc m 0 ≠ 0) | none => true) = true := by decide
+  unfold cfg? at h
+  cases hp : Fixed.places? k with
+  | none => simp [hp] at h
+  | some p =>
+    cases hm : Fixed.mult? k with
+    | none => simp [hp, hm] at h
+    | some m =>
+      simp only [hp, hm, Option.some.injEq] at h
+      subst h
+      by_cases hk : k < 17
+      · have := (List.all_eq_true.mp hall) k (by simp [hk])
+        simpa [hm] using this
+      · exfalso
+        unfold Fixed.mult? at hm
+        have hlen : Facts.fixedConfigs.length = 16 := by decide
+        have : Facts.fixedConfigs[k - 1]? = none := List.getElem?_eq_none (by omega)
+        simp [this] at hm
+
+/-- **main clause, values** ("the fixed-point … evaluators return the value obtained by evaluating the expression tree
+    with conventional precedence, left-to-right associativity, and each operator applied with the library's own fixed
+    … arithmetic; whitespace never changes the result"): for every configuration `fixed.Dk`, both division-by-zero
+    settings, every well-formed expression of the full language without variables (atoms, nested calls with the
+    arity of their function, binary operators, signs, parentheses) in ANY blank layout, `Evaluate` of the fixed
+    evaluator — the function the driver runs for the `fxval` stream — returns the value of the expression TREE
+    `X.val`: an atom is its text, a sign applies to its operand only, a binary node applies `EvalFixed.binary`
+    (operand conversion `FixedFrom` = C04's `FromString`, then `F64.add/sub/mul/div/mod` of C03, comparisons on the
+    raw values, the string fall-backs) to the values of its operands, left first, a call applies the function
+    (`F64.abs/ceil/round/min/max`, floor, `if`) to the values of its arguments.  Where float64 arithmetic decides
+    (exponent literals, `^`, sqrt …) both sides are `outside`. -/
+theorem fixed_value_render (k : Nat) (z : Bool) (c : Cfg) (hk : cfg? k z = some c) (fns : List Bytes)
+    (resolve : Option (Bytes → Bytes)) (e : X) (hw : e.WF stdOps fns lpOp.prec) (he : e.Ev) (har : e.Ar)
+    (ws : Nat → Bytes) (hws : ∀ k, Blank (ws k)) (depth : Nat) (hd : e.cd ≤ depth) :
+    EvalFixed.evaluate c stdOps fns resolve (depth + 1) (e.render lpOp rpOp ws) = e.val c :=
+  X.fx_evaluate_render c (fixed_cfg_one_ne_zero k z c hk) stdOps fns resolve lpOp rpOp table_full e hw he har ws hws depth hd
+
+/-- … in particular with the budget the driver uses (input length + 1) -/
+theorem fixed_value_render_driver (k : Nat) (z : Bool) (c : Cfg) (hk : cfg? k z = some c) (fns : List Bytes)
+    (resolve : Option (Bytes → Bytes)) (e : X) (hw : e.WF stdOps fns lpOp.prec) (he : e.Ev) (har : e.Ar)
+    (ws : Nat → Bytes) (hws : ∀ k, Blank (ws k)) :
+    EvalFixed.evaluate c stdOps fns resolve ((e.render lpOp rpOp ws).length + 1) (e.render lpOp rpOp ws) = e.val c :=
+  fixed_value_render k z c hk fns resolve e hw he har ws hws _ (X.cd_le_render lpOp rpOp e ws)
+
+/-- clause "whitespace never changes the result", values: two layouts of one expression have the same value -/
+theorem fixed_value_whitespace (k : Nat) (z : Bool) (c : Cfg) (hk : cfg? k z = some c) (fns : List Bytes)
+    (resolve : Option (Bytes → Bytes)) (e : X) (hw : e.WF stdOps fns lpOp.prec) (he : e.Ev) (har : e.Ar)
+    (ws₁ ws₂ : Nat → Bytes) (h₁ : ∀ k, Blank (ws₁ k)) (h₂ : ∀ k, Blank (ws₂ k)) :
+    EvalFixed.evaluate c stdOps fns resolve ((e.render lpOp rpOp ws₁).length + 1) (e.render lpOp rpOp ws₁) =
+      EvalFixed.evaluate c stdOps fns resolve ((e.render lpOp rpOp ws₂).length + 1) (e.render lpOp rpOp ws₂) := by
+  rw [fixed_value_render_driver k z c hk fns resolve e hw he har ws₁ h₁,
+    fixed_value_render_driver k z c hk fns resolve e hw he har ws₂ h₂]
+
+/-- operands: a literal text is converted by `f64.FromString` (the C04 model `FixedText.fromStr64`), a comparison
+    result counts as the NUMBER one / zero of the configuration (`f64.From[T,int](1)`, not the raw 1), a number is
+    itself -/
+theorem fixed_operand_conversion (c : Cfg) (x : Bytes) (raw : Int) (b : Bool) :
+    (FixedText.fromStr64 c.places c.mult x = .ok raw → fixedFrom c (.str x) = .ok raw) ∧
+    (FixedText.fromStr64 c.places c.mult x = .err → fixedFrom c (.str x) = .err) ∧
+    fixedFrom c (.bool b) = .ok (if b then Fixed.F64.fromInt c.mult 1 else 0) ∧
+    fixedFrom c (.num raw) = .ok raw := by
+  refine ⟨?_, ?_, rfl, rfl⟩ <;> intro h <;> simp [fixedFrom, h]
+
+/-- "each operator applied with the library's own fixed arithmetic": on numbers the operators of the table ARE the
+    operations of `Model/Fixed.lean` (C03) — `+ - *` with `int64` wrap-around, `/` and `%` (non-zero divisor) the
+    fixed-point division and remainder, the comparisons on the raw values -/
+theorem fixed_operators_are_f64 (c : Cfg) (a b : Int) :
+    binary c (symBytes "+") (.num a) (.num b) = .ok (.num (Fixed.F64.add a b)) ∧
+    binary c (symBytes "-") (.num a) (.num b) = .ok (.num (Fixed.F64.sub a b)) ∧
+    binary c (symBytes "*") (.num a) (.num b) = .ok (.num (Fixed.F64.mul c.mult a b)) ∧
+    (b ≠ 0 → binary c (symBytes "/") (.num a) (.num b) = (match Fixed.F64.div c.mult a b with
+        | some q => .ok (.num q) | none => .panic) ∧ Fixed.F64.div c.mult a b ≠ none) ∧
+    (b ≠ 0 → binary c (symBytes "%") (.num a) (.num b) = (match Fixed.F64.mod c.mult a b with
+        | some q => .ok (.num q) | none => .panic) ∧ Fixed.F64.mod c.mult a b ≠ none) ∧
+    binary c (symBytes "<") (.num a) (.num b) = .ok (.bool (decide (a < b))) ∧
+    binary c (symBytes "<=") (.num a) (.num b) = .ok (.bool (decide (a ≤ b))) ∧
+    binary c (symBytes ">") (.num a) (.num b) = .ok (.bool (decide (a > b))) ∧
+    binary c (symBytes ">=") (.num a) (.num b) = .ok (.bool (decide (a ≥ b))) ∧
+    binary c (symBytes "==") (.num a) (.num b) = .ok (.bool (a == b)) ∧
+    binary c (symBytes "!=") (.num a) (.num b) = .ok (.bool (a != b)) := by
+  refine ⟨?_, ?_, ?_, ?_, ?_, ?_, ?_, ?_, ?_, ?_, ?_⟩
+  · simp [binary, symBytes, String.utf8EncodeChar, opAdd, withFallback, fixedFrom]
+  · simp [binary, symBytes, String.utf8EncodeChar, opSub, bothNum, fixedFrom]
+  · simp [binary, symBytes, String.utf8EncodeChar, opMul, bothNum, fixedFrom]
+  · intro hb
+    simp [binary, symBytes, String.utf8EncodeChar, opDiv, bothNum, fixedFrom, hb, Fixed.F64.div]
+  · intro hb
+    simp [binary, symBytes, String.utf8EncodeChar, opMod, bothNum, fixedFrom, hb, Fixed.F64.mod, Fixed.F64.div]
+  · simp [binary, symBytes, String.utf8EncodeChar, opLt, withFallback, fixedFrom]
+  · simp [binary, symBytes, String.utf8EncodeChar, opLe, withFallback, fixedFrom]
+  · simp [binary, symBytes, String.utf8EncodeChar, opGt, withFallback, fixedFrom]
+  · simp [binary, symBytes, String.utf8EncodeChar, opGe, withFallback, fixedFrom]
+  · simp [binary, symBytes, String.utf8EncodeChar, opEq, withFallback, fixedFrom]
+  · simp [binary, symBytes, String.utf8EncodeChar, opNe, withFallback, fixedFrom]
+
+end FixedValues
 
 end C09
